@@ -132,6 +132,12 @@ class RecordingNetworkingThread:
         if self.forward is not None:
             self.forward.add_outbound_message(msg, addr, port, repeat_params)
 
+    def __getattr__(self, name):
+        # anything else WSDiscovery asks of its networking thread goes to the real (socket-less) one
+        if self.forward is not None and not name.startswith('__'):
+            return getattr(self.forward, name)
+        raise AttributeError(name)
+
     def start(self):
         pass
 
